@@ -118,3 +118,54 @@ Proof.
     apply G; [cbn [fst]; unfold n; lia|]. intros i Hi. apply in_seq in Hi. unfold n. lia. }
   rewrite Hr. rewrite (fan_clipv sigma (length p) p [] Hc); [cbn [length]; lia|lia|lia].
 Qed.
+
+(* ---- the same with less: only the angular order seen from the last vertex, plus the reference winding ----
+   (L) was used for two things only: the winding test at vertex 0 -- which is the fan pair (0, 1) -- and the reference
+   winding, which is computed once at the leftmost vertex of the whole polygon. So a polygon that is star-shaped from its
+   last vertex with its vertices in angular order, whatever its reflex corners, is completely triangulated as soon as the
+   reference test gives its winding (e.g. the chamfer outline, which has two reflex corners). *)
+Lemma fanonly_first_is_ear sigma p : fan sigma p -> (3 <= length p)%nat -> is_ear sigma p 0 = true.
+Proof.
+  intros Hf Hn. unfold is_ear. set (n := length p).
+  assert (Hprev : prev_i n 0 = (n - 1)%nat) by reflexivity.
+  assert (Hnext : next_i n 0 = 1%nat) by (unfold next_i; destruct (Nat.eqb_spec 0 (n - 1)); [unfold n in *; lia|reflexivity]).
+  rewrite Hprev, Hnext.
+  pose proof (Hf 0%nat 1%nat ltac:(lia) ltac:(unfold n in *; lia)) as S1. fold n in S1.
+  pose proof (osign_ccw _ _ _ _ S1) as Hw. unfold pt_at in Hw. rewrite Hw.
+  rewrite eqb_reflx. apply forallb_forall. intros j Hj. apply in_seq in Hj.
+  destruct (Nat.eqb_spec j (n - 1)); [reflexivity|]. destruct (Nat.eqb_spec j 1); [reflexivity|]. destruct (Nat.eqb_spec j 0); [reflexivity|].
+  cbn [orb]. apply negb_true_iff.
+  fold (pt_at p j) (pt_at p (n - 1)) (pt_at p 0) (pt_at p 1).
+  assert (H1 : orientR (pt_at p 1) (pt_at p (n - 1)) (pt_at p 0) = orientR (pt_at p (n - 1)) (pt_at p 0) (pt_at p 1)) by (unfold orientR; ring).
+  assert (H2 : orientR (pt_at p 1) (pt_at p (n - 1)) (pt_at p j) = - orientR (pt_at p (n - 1)) (pt_at p 1) (pt_at p j)) by (unfold orientR; ring).
+  pose proof (Hf 1%nat j ltac:(lia) ltac:(unfold n in *; lia)) as S2. fold n in S2.
+  unfold osign in S1, S2. apply in_triangle_false; rewrite ?H1, ?H2.
+  - destruct sigma; lra.
+  - destruct sigma.
+    + apply Ropp_lt_cancel. rewrite Ropp_0. unfold Rdiv. rewrite <- Ropp_mult_distr_l, Ropp_involutive. apply Rmult_lt_0_compat; [exact S2|apply Rinv_0_lt_compat; exact S1].
+    + unfold Rdiv. assert (Hinv : / orientR (pt_at p (n - 1)) (pt_at p 0) (pt_at p 1) < 0) by (apply Rinv_lt_0_compat; exact S1). nra.
+Qed.
+Lemma fan_tail sigma a p : fan sigma (a :: p) -> (2 <= length p)%nat -> fan sigma p.
+Proof.
+  intros Hf Hn i j Hij Hj. set (n := length p) in *.
+  assert (Hpt : forall i, pt_at p i = pt_at (a :: p) (S i)) by (intros k; reflexivity).
+  rewrite !Hpt. replace (S (n - 1)) with (length (a :: p) - 1)%nat by (cbn [length]; fold n; lia).
+  apply Hf; [lia|cbn [length]; fold n; lia].
+Qed.
+Lemma fanonly_clipv sigma : forall fuel p acc, fan sigma p -> (2 <= length p)%nat -> (length p <= fuel + 2)%nat ->
+  length (fst (clipv fuel sigma p acc)) = (length acc + (length p - 2))%nat.
+Proof.
+  induction fuel as [|f IH]; intros p acc Hc H2 Hf.
+  - cbn [clipv fst]. lia.
+  - cbn [clipv]. destruct (Nat.ltb_spec (length p) 3) as [H3|H3]; [cbn [fst]; lia|].
+    assert (Hfe : find_ear sigma p = Some 0%nat).
+    { unfold find_ear. destruct (length p) as [|m] eqn:E; [lia|]. cbn [seq find]. rewrite (fanonly_first_is_ear sigma p Hc); [reflexivity|lia]. }
+    rewrite Hfe. destruct p as [|a p]; [cbn in H3; lia|].
+    unfold remove_nth. cbn [firstn skipn app]. cbn [length] in *.
+    rewrite IH; [rewrite app_length; cbn [length]; lia|apply (fan_tail sigma a); [exact Hc|lia]|lia|lia].
+Qed.
+Theorem fan_complete sigma (p : list vtxR) : fan sigma p -> ref_ccw p = sigma -> (3 <= length p)%nat -> complete p.
+Proof.
+  intros Hc Hr Hn. unfold complete. rewrite triangulate_run, flat_idx3_length. unfold run. rewrite Hr.
+  rewrite (fanonly_clipv sigma (length p) p [] Hc); [cbn [length]; lia|lia|lia].
+Qed.
